@@ -60,6 +60,27 @@ CHECKS.update({
                     "argument); best-batch: exhaustive search for a parent among the lowest-loss points and integer shifts. "
                     "Rediscovered the XGBoost clip-in-place defect (fixed).",
             "note": "dedup disabled for the surrogate clause; GP/CORS only with finite losses."},
+    "C02": {"category": "exploration", "technique": PBT + " of calibrate() call histories with recording wrappers around model, loss and samplers; invariant after every call",
+            "text": "Real Calibrator objects over generated line-ups (incl. XGBoost and best-batch), ensembles, simulation lengths, "
+                    "pure models (incl. 1e200-scale / infinite output) and losses; after every calibrate(n) the eleven clauses "
+                    "of the statement are checked against what the wrappers recorded (re-running the pure model with the recorded "
+                    "seed, re-evaluating an independent copy of the loss).",
+            "note": "n_jobs=1; an exception out of calibrate ends the history (prefix still checked)."},
+    "C09": {"category": "exploration", "technique": PBT + " of operation histories (calibrate / restore) with a class-level sample() logger; scripted and epsilon-greedy agents",
+            "text": "Round-robin: the i-th batch over the whole life (across calibrate calls and checkpoint restores) comes from "
+                    "position i mod n with that batch size; RL: first batch from a Halton bootstrap, later batches a subsequence of "
+                    "the agent's choices over the supplied set; constructor accepts exactly one of samplers/scheduler. "
+                    "Rediscovered the constructor validation defect (fixed).",
+            "note": "RL runs use the real thread under the OS scheduler (interleavings are C10's subject)."},
+    "C14": {"category": "exploration", "technique": PBT + " of calibrate() histories with scripted losses against an exact-rational rounding model",
+            "text": "Loss scripts concentrated at 0.5*10^-p; batches executed per call, counters, verbose-independence and the restored "
+                    "checkpoint are compared with a reference model. Rediscovered both early-stopping defects (fixed).",
+            "note": "values within 1e-12 relative of the boundary are excluded (either verdict accepted)."},
+    "C18": {"category": "exploration", "technique": PBT + " of calibrate / set_samplers / set_scheduler / checkpoint / read-labels histories",
+            "text": "Id table monotonicity and uniqueness after every operation, labels equal to the producing class (class-level "
+                    "logger), and names recovered by the plotting helper from the calibrator's own checkpoint equal the live table. "
+                    "Rediscovered the plot-helper TypeError and the non-persisted table (both fixed).",
+            "note": "round-robin schedulers only for replacement."},
 })
 NOT_APPLICABLE = {p: "check not built yet in this session (design in DESIGN.md section 3); will be claimed once its harness exists"
                   for p in ALL if p not in CHECKS}
